@@ -4,6 +4,7 @@ import (
 	"fmt"
 	"log"
 	"os"
+	"os/exec"
 	"path/filepath"
 	"sort"
 	"strings"
@@ -232,4 +233,33 @@ func cliScrubLog(s string) string {
 		}
 	}
 	return strings.Join(lines, "\n")
+}
+
+// cliFreshRun executes the plain (uninstrumented) binary once in a fresh process on a private directory.
+func cliFreshRun(bin string, e cliEntry, args []string) (string, error) {
+	dir, err := os.MkdirTemp(filepath.Join(verifDir(), "build", "tmp"), "c18-")
+	if err != nil {
+		return "", err
+	}
+	defer os.RemoveAll(dir)
+	for n, content := range e.Files {
+		os.WriteFile(filepath.Join(dir, n), []byte(content), 0o644)
+	}
+	a := make([]string, len(args))
+	for i, s := range args {
+		a[i] = strings.ReplaceAll(s, "@/", dir+"/")
+	}
+	cmd := exec.Command(bin, a...)
+	cmd.Stdin = strings.NewReader(e.Stdin)
+	cmd.Dir = dir
+	var so, se strings.Builder
+	cmd.Stdout, cmd.Stderr = &so, &se
+	err = cmd.Run()
+	out := fmt.Sprintf("stdout=%q exit=%v", strings.ReplaceAll(so.String(), dir, "@"), err)
+	for _, n := range e.Out {
+		if b, err := os.ReadFile(filepath.Join(dir, strings.TrimPrefix(n, "@/"))); err == nil {
+			out += fmt.Sprintf(" %s=%q", n, cliScrubLog(strings.ReplaceAll(string(b), dir, "@")))
+		}
+	}
+	return out, nil
 }
